@@ -118,11 +118,37 @@ def handlePrimB (kv : KV) : String :=
         | .error _ => s!"DIFF {id} model=err impl=ok"
   | _, _, _, _ => "ERR ? missing-field"
 
+/-- kind=primseg: a primitive parsed from a buffer split into two segments at every position must give exactly what
+    the contiguous buffer gives (value as re-serialised bytes, or error kind); reserved fields accept zeros only. -/
+def handlePrimSeg (kv : KV) : String :=
+  match kv.get? "ty", kv.hex? "bytes", kv.get? "whole", kv.get? "segs" with
+  | some ty, some bytes, some whole, some segs =>
+    let id := s!"seg:{ty}:{toHex bytes}"
+    let parts := (segs.splitOn ";").filterMap fun t =>
+      match t.splitOn ":" with
+      | k :: rest@(_ :: _) => some (k, ":".intercalate rest)
+      | _ => none
+    -- Spec for the reserved fields (the only primitive with a rejection rule): ok iff every byte is zero
+    let resSpec : Option String :=
+      if ty.startsWith "reserved" then
+        some (if bytes.all (· == 0) then s!"ok:{toHex bytes}" else "err:InvalidInput")
+      else none
+    match parts.find? (fun x => x.2 != whole) with
+    | some (k, r) => s!"SPEC {id} which=segmented-buffer-parses-differently sig=prim:{ty}:segmented split={k} seg={r} whole={whole}"
+    | none =>
+      match resSpec with
+      | some e => if e != whole then s!"SPEC {id} which=reserved-bytes-rule sig=prim:{ty}:reserved impl={whole} spec={e}" else s!"OK {id} tags=primseg,{ty},{if whole.startsWith "ok" then "accepted" else "rejected"}"
+      | none =>
+        if whole.startsWith "ok:" && whole != s!"ok:{toHex bytes}" then s!"SPEC {id} which=parse-then-put-reproduces-bytes sig=prim:{ty}:seg-roundtrip impl={whole}"
+        else s!"OK {id} tags=primseg,{ty},{if whole.startsWith "ok" then "accepted" else "rejected"}"
+  | _, _, _, _ => "ERR ? missing-field"
+
 def handle (kv : KV) : String :=
   match kv.get? "kind" with
   | some "chunk" => handleChunk kv
   | some "prim" => handlePrim kv
   | some "primb" => handlePrimB kv
+  | some "primseg" => handlePrimSeg kv
   | _ => "ERR ? unknown-kind"
 
 end Driver.C17
